@@ -14,6 +14,8 @@ CONSTANTS
   none = none
   Latitude = {"PutBadRefused", "PutBadStored", "AuthzRefused", "AuthzAsAuthcid"}
   Scope = "small"
+  Profile = "dict"
+  Open = {}
 INVARIANT TypeOK
 INVARIANT AtMostOneActive
 INVARIANT ActiveIsStored
@@ -27,4 +29,6 @@ PROPERTY PutThenGet
 PROPERTY RenameKeeps
 PROPERTY ActiveNotDeleted
 PROPERTY MapFrame
+PROPERTY SetActiveTakes
+PROPERTY DeleteRemoves
 INVARIANT Universes
